@@ -361,6 +361,27 @@ let world_line lineno line (toks : string list) : bool =
       true
   | "X" :: _ -> true
   | "A" :: _ -> true
+  | "Q" :: rest ->
+      (* price-feed queries (real feed): prev.<n>=round/price/time|err  twap.<interval>=v|err *)
+      (match !world with
+       | Some w ->
+         (match w.M.w_feed with
+          | M.FReal r ->
+            List.iter (fun tok ->
+              let (k, v) = kv tok in
+              incr compared;
+              let mval =
+                if String.length k > 5 && String.sub k 0 5 = "prev." then
+                  (match M.rf_previous r (zs (String.sub k 5 (String.length k - 5))) with
+                   | M.Ok ((rid, pr), tm) -> Printf.sprintf "%s/%s/%s" (sz rid) (sz pr) (sz tm)
+                   | M.Err _ -> "err")
+                else if String.length k > 5 && String.sub k 0 5 = "twap." then
+                  show_rz (M.rf_twap r w.M.w_env.M.now (zs (String.sub k 5 (String.length k - 5))))
+                else "?" in
+              if mval <> v then report lineno (!cur_history ^ " | " ^ !cur_op ^ " | " ^ tok) (k ^ "=" ^ mval)) rest
+          | _ -> ())
+       | None -> ());
+      true
   | "S" :: rest ->
       (match !world with
        | Some w ->
